@@ -329,6 +329,33 @@ def run(cx):
                 continue
             key = (what, o["r"], re.sub(r"[0-9]+", "N", (o.get("msg") or ""))[:40])
             groups.setdefault(key, []).append(dict(o, id=i))
+        # a disagreement that needs the type caches in the state other routes leave behind: in a second fresh
+        # process every remaining case is preceded by the by-value and by-field routes of its own (type, class)
+        rest = [i for ids in picked.values() for i in ids if i not in seen and by_id[i]["r"] not in ("write_lit", "global", "field_read")]
+        if rest:
+            WARM = 2 * 10 ** 7
+            req2 = []
+            for n_, i in enumerate(rest):
+                c0 = case_of[i]
+                for k_, r0 in enumerate(("global", "field_read")):
+                    if not (r0 == "global" and c0["t"][0] == "iface"):
+                        req2.append(dict(c0, r=r0, id=WARM + 2 * n_ + k_))
+                req2 += [c0, dict(c0, id=i + TWICE)]
+            again2 = [o for o in each(drive(cx, drv, req2, "again2", jobs=1)) if o["id"] < WARM]
+            again2_v = judge(cx, again2, "again2", 1, width)
+            for o in again2:
+                i = o["id"] % TWICE
+                if again2_v.get(o["id"], ("OK", ""))[0] != "MISMATCH" or i in seen:
+                    continue
+                seen.add(i)
+                what = again2_v[o["id"]][1]
+                f = next((f for f in known if matches(f, o, what)), None)
+                if f is not None:
+                    nknown[f["id"]] = nknown.get(f["id"], 0) + 1
+                    cx.report_known(f)
+                    continue
+                key = (what, o["r"], re.sub(r"[0-9]+", "N", (o.get("msg") or ""))[:40])
+                groups.setdefault(key, []).append(dict(o, id=i, replay_with="global and field_read of the same type first"))
         for ids in picked.values():
             for i in ids:
                 if i not in seen:
